@@ -83,6 +83,26 @@ Proof.
 Qed.
 Print Assumptions C28_accept_iff.
 
+(* Under the usual idealisations, stated as explicit premises (H224 collision
+   free; a verifying signature means the key holder signed): the holder of
+   every key that owns a spent input or collateral input, and of every
+   required signer key, signed this transaction id. *)
+Theorem C28_owner_authorised :
+  forall (H224 SHA3 : bytes -> bytes) (edverify : bytes -> bytes -> bytes -> bool)
+         (Signed : bytes -> bytes -> Prop),
+  (forall a b, H224 a = H224 b -> a = b) ->
+  (forall pk msg sg, edverify pk msg sg = true -> Signed pk msg) ->
+  forall (e : era_info) (t : tx),
+  In e era_table -> tx_fits e t -> era_accept H224 SHA3 edverify e t = true ->
+  (forall pk, In (ROut (AKey (H224 pk))) (inputs t ++ collateral t) -> Signed pk (txid t)) /\
+  (forall pk, In (H224 pk) (req_signers t) -> Signed pk (txid t)).
+Proof.
+  intros H224 SHA3 edverify Signed Hi Hs e t He F A. split.
+  - exact (key_owner_authorised H224 SHA3 edverify Signed Hi Hs e t He F A).
+  - exact (required_signer_authorised H224 SHA3 edverify Signed Hi Hs e t He F A).
+Qed.
+Print Assumptions C28_owner_authorised.
+
 (* The rule lists found in the tree: every era of Shelley..Conway is present,
    each runs the required-signer rule and UtxoValidateSignatures, each era
    whose decoder surfaces collateral runs the collateral rule, every
